@@ -21,6 +21,7 @@ All rights reserved.
 #include "simulator/pcap.hpp"
 #include "simulator/handler_allocator.hpp"
 
+#include <limits>
 #include <functional>
 #include <cinttypes>
 #include <cstdio> // for printf
@@ -572,7 +573,10 @@ namespace ip {
 		for (auto const& buf : bufs)
 		{
 			// split up in packets
-			int buf_size = int(buf.size());
+			// (a buffer may be larger than an int can tell. No more than a
+			// window's worth of it is sent in one call anyway)
+			int buf_size = int((std::min)(buf.size()
+				, std::size_t((std::numeric_limits<int>::max)())));
 			std::uint8_t const* ptr = static_cast<std::uint8_t const*>(buf.data());
 			while (buf_size > 0)
 			{
@@ -675,7 +679,8 @@ namespace ip {
 				// both are vectors of buffer, so it can get a bit hairy
 				while (recv_iter != m_recv_buffer.end())
 				{
-					int const buf_size = int(recv_iter->size());
+					int const buf_size = int((std::min)(recv_iter->size()
+						, std::size_t((std::numeric_limits<int>::max)())));
 					int const copy_size = (std::min)(int(p.buffer.size())
 						, buf_size - buf_offset);
 
